@@ -249,6 +249,7 @@ def check_c16(tier):
 
 # =========================================================================== C18
 SAN = ('asan-gcc', 'asan-clang', 'msan')
+SAN_O0 = 'asan-gcc-O0'   # unoptimised: reference bindings and loads the optimiser would fold away stay visible to UBSan
 @vc.custom('C18')
 def check_c18(tier):
     V = Verdict('C18', tier)
@@ -261,6 +262,8 @@ def check_c18(tier):
         specs.append(S(c, d, m, o, variant='plain', flags=['--copy', '--replica'], props=['C18']))     # alignment + allocation monitors, full speed
         for v in SAN:
             specs.append(S(c, ds, m, o, variant=v, flags=['--copy', '--replica'], props=['C18'], share=3 if v == 'msan' else 1))
+        if c in ('T2', 'P3', 'P5', 'T3') or tier == 'thorough':
+            specs.append(S(c, min(ds, 1) if tier == 'quick' else ds, m, o, variant=SAN_O0, flags=['--copy', '--replica'], props=['C18'], share=2))
     vc.run_specs(V, specs, tier, budget=200 if tier == 'quick' else 1500)
     # containers and the extreme machine sizes under ASan+UBSan
     jobs = []
